@@ -13,6 +13,7 @@ import (
 	"fmt"
 	"math/big"
 	"os"
+	"runtime"
 	"strings"
 
 	"github.com/artela-network/artela-evm/vm"
@@ -34,6 +35,10 @@ type pcVec struct {
 	Kind1 string `json:"kind1"`
 	Kind2 string `json:"kind2"`
 	Same  bool   `json:"same"`
+	Addr  int    `json:"addr"`
+	A     int    `json:"a"`
+	B     int    `json:"b"`
+	C     int    `json:"c"`
 }
 
 type pcExp struct {
@@ -44,6 +49,8 @@ type pcExp struct {
 	VLen   int    `json:"vlen"`
 	Avail  bool   `json:"avail"`
 	Must   string `json:"must"`
+	PerGas uint64 `json:"allocPerGas"`
+	Slack  uint64 `json:"allocSlack"`
 }
 
 type pcLine struct {
@@ -77,8 +84,11 @@ func pcPat(n int) []byte {
 func pcWord(v *big.Int) []byte { return common.LeftPadBytes(v.Bytes(), 32) }
 
 type pcRunner struct {
-	out  []jcMismatch
-	fees map[string]map[uint64]int
+	out     []jcMismatch
+	fees    map[string]map[uint64]int
+	workN   int
+	workOK  int
+	workMax uint64
 }
 
 func (r *pcRunner) miss(comp, f string, a ...interface{}) {
@@ -424,6 +434,42 @@ func (r *pcRunner) seq(v pcVec, x pcExp) {
 	}
 }
 
+const pcWorkGas = 3_000_000
+
+// work: a call whose first three payload words announce lengths of every size class; the bytes the whole call allocates
+// (runtime.MemStats.TotalAlloc around it; this command is single-threaded) must be bounded by the gas it is charged (C20).
+func (r *pcRunner) work(v pcVec, x pcExp) {
+	to := common.BytesToAddress([]byte{byte(v.Addr)})
+	payload := append(append(append([]byte{}, pcWord(pcOpnd(v.A))...), pcWord(pcOpnd(v.B))...), pcWord(pcOpnd(v.C))...)
+	if v.N > len(payload) {
+		payload = append(payload, pcPat(v.N-len(payload))...)
+	}
+	e := evmx.NewEnv(evmx.EnvOpts{Fork: v.Fork})
+	e.Prepare(&to)
+	e.EVM.IsExecuteJP = false
+	var m0, m1 runtime.MemStats
+	runtime.ReadMemStats(&m0)
+	res := e.Call(e.Origin, to, payload, pcWorkGas, big.NewInt(0))
+	runtime.ReadMemStats(&m1)
+	if res.Panic != "" {
+		r.miss("pc.panic", "precompile 0x%x on %s, announced lengths %s/%s/%s in %d bytes: panic %s", v.Addr, v.Fork, pcOpnd(v.A), pcOpnd(v.B), pcOpnd(v.C), v.N, res.Panic)
+		return
+	}
+	alloc := m1.TotalAlloc - m0.TotalAlloc
+	used := uint64(pcWorkGas) - res.Left
+	r.workN++
+	if alloc > r.workMax {
+		r.workMax = alloc
+	}
+	if res.Err == nil {
+		r.workOK++
+	}
+	if alloc > x.PerGas*used+x.Slack {
+		r.miss("pc.work", "call to precompile 0x%x on %s announcing lengths %s/%s/%s in a %d-byte payload allocated %d bytes for %d gas (bound %d bytes per gas + %d)",
+			v.Addr, v.Fork, pcOpnd(v.A), pcOpnd(v.B), pcOpnd(v.C), v.N, alloc, used, x.PerGas, x.Slack)
+	}
+}
+
 func precompileCmd(args []string) int {
 	fs := flag.NewFlagSet("precompile", flag.ExitOnError)
 	out := fs.String("out", "", "report file")
@@ -443,6 +489,8 @@ func precompileCmd(args []string) int {
 			r.attr(l.V, l.E)
 		case "seq":
 			r.seq(l.V, l.E)
+		case "work":
+			r.work(l.V, l.E)
 		}
 	}
 	if *one != "" {
@@ -496,7 +544,7 @@ func precompileCmd(args []string) int {
 		runOne(l)
 		rep.Vectors++
 		rep.ByKind[l.V.K]++
-		if l.E.Ok || l.V.K == "attr" || l.V.K == "seq" {
+		if l.E.Ok || l.V.K == "attr" || l.V.K == "seq" || l.V.K == "work" {
 			okCount++
 		}
 		seen := map[string]bool{}
@@ -522,6 +570,9 @@ func precompileCmd(args []string) int {
 			rep.Fees[fmt.Sprintf("%s#%d", pc, i)] = f
 			i++
 		}
+	}
+	if r.workN > 0 {
+		rep.Work = []string{fmt.Sprintf("calls=%d succeeded=%d max-alloc=%d", r.workN, r.workOK, r.workMax)}
 	}
 	fmt.Printf("PC-DONE vectors=%d mismatching-components=%d\n", rep.Vectors, len(rep.ByComp))
 	if *out != "" {
